@@ -68,6 +68,28 @@ impl<F: Future> Future for CancelAt<F> {
     }
 }
 
+/// Polls a pinned future at most `n` times and then leaves it alone (alive, unpolled): resolves to
+/// `Some(output)` if it completed within those polls.
+pub struct PollSome<'a, F: Future> {
+    pub fut: Pin<&'a mut F>,
+    pub left: u32,
+}
+
+impl<F: Future> Future for PollSome<'_, F> {
+    type Output = Option<F::Output>;
+    fn poll(mut self: Pin<&mut Self>, cx: &mut Context<'_>) -> Poll<Self::Output> {
+        if self.left == 0 {
+            return Poll::Ready(None);
+        }
+        self.left -= 1;
+        match self.fut.as_mut().poll(cx) {
+            Poll::Ready(v) => Poll::Ready(Some(v)),
+            Poll::Pending if self.left == 0 => Poll::Ready(None),
+            Poll::Pending => Poll::Pending,
+        }
+    }
+}
+
 /// Counts the polls a future needs.
 pub struct PollCount<F> {
     fut: Pin<Box<F>>,
